@@ -132,7 +132,9 @@ func (enc *xmlWriter) ByteString(tag int, str []byte) {
 }
 
 func (enc *xmlWriter) DateTime(tag int, date time.Time) {
-	enc.encode(TypeDateTime, tag, date.Format(time.RFC3339))
+	// Always in UTC: a date-time read back would otherwise be written differently when
+	// the local time zone is not UTC (and year 9999 could become year 10000).
+	enc.encode(TypeDateTime, tag, date.UTC().Format(time.RFC3339))
 }
 
 func (enc *xmlWriter) Interval(tag int, interval time.Duration) {
